@@ -69,7 +69,7 @@ Sensitive == {"SaslAuth", "SaslResponse", "SaslAbort", "Sasl2Authenticate", "Sas
               "Iq", "Message", "Presence"}
 Harmless  == {"StreamOpen", "StreamClose", "Starttls", "SmAck", "SmReq"}
 
-C0 == [sock |-> "Off", enc |-> FALSE, wrap |-> FALSE, lst |-> "Core", lq |-> "None", ver |-> "none",
+C0 == [sock |-> "Off", enc |-> FALSE, wrap |-> FALSE, frag |-> FALSE, lst |-> "Core", lq |-> "None", ver |-> "none",
        authed |-> FALSE, session |-> FALSE,
        bindAvail |-> FALSE, smAvail |-> FALSE, smEnabled |-> FALSE, smResumed |-> FALSE,
        canResume |-> FALSE, redirect |-> FALSE,
@@ -357,19 +357,27 @@ Init ==
 \* QXmppClient::connectToServer with an explicit host; the socket connects -> handleStart
 Connect ==
     /\ c.sock = "Off" /\ c.conn < MaxConn
-    /\ Apply(HandleStart(R0([c EXCEPT !.sock = "On", !.wrap = FALSE, !.conn = @ + 1])), [k |-> "Connect"])
+    /\ Apply(HandleStart(R0([c EXCEPT !.sock = "On", !.wrap = FALSE, !.frag = FALSE, !.conn = @ + 1])), [k |-> "Connect"])
 
 ServerHeader(versioned) ==
-    /\ c.sock = "On"
+    /\ c.sock = "On" /\ ~c.frag
     /\ Apply(HandleHeader(R0(c), versioned), [k |-> "Hdr", versioned |-> versioned])
 
 \* XmppSocket can only parse elements once it has a stream header to wrap them with (wrap);
 \* what a server writes before its header just sits in the read buffer
 ServerElement(e) ==
-    /\ c.sock = "On" /\ c.wrap
+    /\ c.sock = "On" /\ c.wrap /\ ~c.frag
     /\ e.k = "IqReply" => c.iq = "out"            \* the server can only answer what was asked
     /\ e.k = "SeeOtherHost" => c.conn < MaxConn   \* (bound: a redirect opens another connection)
     /\ Apply(Dispatch(R0(c), e), e)
+
+\* The connection is about to be lost in the middle of an element: the beginning of an element
+\* (w = "element") or of a multi-byte character (w = "utf8") arrives and nothing after it.  The
+\* client does not react; the fragment sits in the receive buffer (frag) and must be gone when
+\* the next connection starts (XmppSocket clears its buffers when the socket connects).
+ServerPartial(w) ==
+    /\ c.sock = "On" /\ c.wrap /\ ~c.frag
+    /\ Apply(R0([c EXCEPT !.frag = TRUE]), [k |-> "Partial", what |-> w])
 
 \* the connection drops (peer abort)
 Cut ==
@@ -390,6 +398,7 @@ Next ==
     \/ Connect \/ Cut \/ UserDisconnect \/ SendIq
     \/ \E v \in BOOLEAN : ServerHeader(v)
     \/ \E e \in Elements : ServerElement(e)
+    \/ \E w \in {"element", "utf8"} : ServerPartial(w)
 
 Spec == Init /\ [][Next]_vars
 
